@@ -62,7 +62,7 @@ TOK_PRINT = 0x91
 
 
 def quick_runs(prop):
-    return 480 if prop == 'C15' else 640
+    return 1600 if prop == 'C15' else 2400
 
 
 ###############################################################################
@@ -332,6 +332,7 @@ class S15(object):
         self.pristine = None  # bytes of a B file of the current program
         self.bound = set()
         self.nrestart = 0
+        self.ncrash = 0
 
     # -- plumbing -------------------------------------------------------------
 
@@ -370,6 +371,22 @@ class S15(object):
             self.open_session()
             self.resync('crash in ' + what)
             return None
+
+    def crashed(self, e, recover=True):
+        """A host exception where C15 promises a BASIC-level outcome: a violation; then go on with a fresh Session."""
+        _norm(e)
+        self.v('crash:' + e.signature, '%s: %s (during %r)\n%s' % (e.exc_type, e.exc_msg, e.where, e.tb))
+        self.run.probe('crash_claimed')
+        self.ncrash += 1
+        if self.ncrash > 3:
+            raise e
+        if recover:
+            try:
+                self.d.close()
+            except EngineCrash:
+                pass
+            self.open_session()
+            self.resync('crash')
 
     def host(self, dev, nm):
         if dev == 'Z':
@@ -604,7 +621,9 @@ class S15(object):
                 self.attempt(False, lambda: (_ for _ in ()).throw(e), 'SAVE,A')
                 return
             e.exc_msg += ' [SAVE format %s to %s with injected %s]' % (fmt, dev, kind)
-            raise _norm(e)
+            self.run.state('savefault', fmt, dev, self.src, 'crash', op['at'])
+            self.crashed(e)
+            return
         finally:
             self.fs.disarm()
         fired = len(self.fs.fired) > nfired
@@ -679,7 +698,9 @@ class S15(object):
             if not self.claimed(fmt):
                 self.attempt(False, lambda: (_ for _ in ()).throw(e), 'LOAD of torn ASCII file')
                 return
-            raise
+            self.run.state('torn', fmt, dev, self.src, 'crash', 'cut_abs' in op, 'flip' in op, min(len(data), 4))
+            self.crashed(e)
+            return
         self.run.state('torn', fmt, dev, self.src, r.err, 'cut_abs' in op, 'flip' in op, min(len(data), 4))
         self.run.probe('torn_loaded')
         # no equality claimed. A torn tape may leave the tape file open; restart before going on
@@ -786,7 +807,9 @@ class S15(object):
             enc, dec = self.d._guard('cipher', both)
         except EngineCrash as e:
             e.exc_msg += ' [protect/unprotect of a %d-byte string]' % len(data)
-            raise
+            self.run.state('cipher', op['kind'], min(len(data), 150), 'crash')
+            self.crashed(e, recover=False)
+            return
         self.run.probe('cipher_bytes', len(data))
         self.run.state('cipher', op['kind'], min(len(data), 150), dec == data)
         if dec != data:
@@ -897,7 +920,9 @@ def _ifc_stmt(rng):
     if k == 9:
         return 'colon-list', rng.choice(['X=1:LIST', 'PRINT 1:LLIST', 'FOR I=1 TO 2:NEXT:LIST', 'X=2:LIST ,"Z:L5.TXT"', ':LIST', 'IF 1 THEN LIST', 'IF 0 THEN X=1 ELSE LIST %d' % ln])
     if k == 10:
-        return 'colon-peek', rng.choice(['X=1:PRINT PEEK(%d)', 'DEF SEG:X=2:A=PEEK(%d)', 'IF 1 THEN A=PEEK(%d)', 'FOR I=%d TO 65535:T$=T$+CHR$(PEEK(I)):NEXT']).replace('%d', str(rng.randint(0, 65000)))
+        a = rng.randint(0, 65000)
+        return 'colon-peek', rng.choice(['X=1:PRINT PEEK(%d)' % a, 'DEF SEG:X=2:A=PEEK(%d)' % a, 'IF 1 THEN A=PEEK(%d)' % a,
+                                         'T$="":FOR I=%d TO %d:T$=T$+CHR$(PEEK(I)):NEXT' % (a, a + rng.randint(1, 200))])
     if k == 11:
         return 'colon-save', rng.choice(['X=1:SAVE "Z:S7.BAS",A', 'X=1:BSAVE "Z:M4.BIN",0,500', 'X=1:MERGE "Z:U.BAS"', 'X=1:CHAIN MERGE "Z:U.BAS"'])
     if k == 12:
@@ -930,7 +955,8 @@ def _misc_stmt(rng):
     if k == 9:
         return 'varptr', rng.choice(['PRINT VARPTR(B)', 'A$=VARPTR$(A$):PRINT LEN(A$)', 'PRINT VARPTR(#1)']), None, ['A$']
     if k == 10:
-        return 'files', 'FILES', None, []
+        # (FILES prints the host's free space, which no simulator owns: not used)
+        return 'name', rng.choice(['NAME "Z:L1.TXT" AS "Z:L9.TXT"', 'KILL "Z:L2.TXT"', 'KILL "Z:NONE.BAS"']), None, []
     if k == 11:
         return 'lprint', 'LPRINT "X";B', None, []
     if k == 12:
@@ -989,14 +1015,31 @@ def _gen16(rng, tier):
             else:
                 ops.append({'op': 'tear', 'permille': rng.randint(0, 1000)})
             src = 'T'
-        elif faulty and rng.random() < 0.3:
-            ops.append({'op': 'fault', 'at': rng.choice(['read', 'read', 'read', 'open', 'seek', 'close']), 'nth': rng.choice([1, 1, 2, 3, rng.randint(1, 300)]),
+        elif faulty and rng.random() < 0.5:
+            at = rng.choice(['read'] * 8 + ['open', 'seek', 'close'])
+            ops.append({'op': 'fault', 'at': at, 'nth': rng.randint(1, 350) if at == 'read' else rng.randint(1, 2),
                         'errno': rng.choice([errno.EIO, errno.EACCES, errno.ENXIO, errno.EBUSY]),
-                        'short': rng.choice([None, None, 0, 1, rng.randint(0, 200)])})
+                        'short': rng.choice([None, None, None, 0])})
         elif rng.random() < 0.1:
             src = 'Q%d' % rng.randint(1, 3)
         how = rng.choice(['LOAD', 'LOAD', 'LOAD', 'LOAD', 'RUN', 'CHAIN', 'LOAD,R'])
         ops.append({'op': 'load', 'how': how, 'src': src, 'via': rng.choice(['exec', 'exec', 'type']), 'brk': brk()})
+        if ops[-2]['op'] in ('tear', 'fault') if len(ops) > 1 else False:
+            # the instants at which flag and bytes could disagree: try every way out at once
+            for _ in range(rng.randint(1, 4)):
+                q = rng.randrange(6)
+                if q == 0:
+                    ops.append({'op': 'sweep', 'off': rng.randint(-4, 300), 'n': rng.randint(100, 250), 'via': 'exec'})
+                elif q == 1:
+                    ops.append({'op': 'bsave', 'off': rng.randint(-4, 100), 'n': rng.randint(500, 2000), 'nm': 'M%d' % rng.randint(5, 7)})
+                elif q == 2:
+                    ops.append({'op': 'saveother', 'nm': rng.choice(['S1', 'S2']), 'fmt': rng.choice(['A', 'B']), 'via': 'exec'})
+                elif q == 3:
+                    ops.append({'op': 'stmt', 'kind': 'list', 'line': rng.choice(['LIST', 'LLIST', 'LIST ,"Z:L6.TXT"']), 'via': 'exec', 'exp': 'ifc', 'vars': []})
+                elif q == 4:
+                    ops.append({'op': 'run', 'cmd': 'RUN', 'via': 'exec', 'brk': None})
+                else:
+                    ops.append({'op': 'stmt', 'kind': 'save-dev', 'line': rng.choice(['SAVE "SCRN:",A', 'SAVE "LPT1:",A']), 'via': 'exec', 'exp': 'ifc', 'vars': []})
 
     load_op()
     while len(ops) < nops:
@@ -1167,6 +1210,7 @@ class S16(object):
     def crash(self, e):
         """A host exception is C01's business; note it and go on looking for disclosure."""
         self.crashes += 1
+        _norm(e)
         self.run.violate('C01', 'crash:' + e.signature, 'during C16 history, op #%d (%s): %s: %s' % (self.opno, self.opkind, e.exc_type, e.exc_msg))
         self.run.probe('crash_survived')
         self.prot = None
@@ -1357,7 +1401,8 @@ class S16(object):
         if kind == 'read' and self.prot is not False:
             self.read_done = True
         out = self.do(line, viaa, self.safety_brk(None) if kind in ('cont', 'goto-direct') else None)
-        if op.get('exp') == 'ifc':
+        if op.get('exp') == 'ifc' and not (kind == 'edit' and self.modified):
+            # (EDIT of a line that DELETE/RENUM removed is Undefined line number, whoever asks)
             self.expect_ifc(kind, line, viaa, out)
         eff = op.get('eff')
         if eff == 'mod':
@@ -1459,6 +1504,7 @@ class S16(object):
             self.scan_all(out)
         keys = list(op['keys'])
         state = {'i': 0}
+        self.env_dirty = True   # F7 is TRON
 
         def extra(w, t):
             if state['i'] < len(keys) and t.engine_idle() and t.at_prompt() and not w.inputs.pending:
